@@ -362,6 +362,7 @@ class M:
             for i, spec in op["v"].items():
                 if self.value[int(i)].apply({"k": "setv", "v": spec}, t):
                     eff = True
+            self.ever_written()     # keep the validity latch of this (fixed-shape) parent current
             return eff
         raise ValueError(f"model: op {k}")
 
